@@ -78,9 +78,23 @@ def check_shell_pair(ctx, conv1, conv2, tag):
     ctx.count()
     n = len(conv1)
     v1 = np.array([float(3 + 2 * i) + 0.25 * i * i for i in range(n)])
-    rperm, rsigns = ref_map(conv1, conv2)
-    want = v1[rperm] * rsigns
     case = {"pair": tag, "conv1": list(conv1), "conv2": list(conv2)}
+    try:
+        rperm, rsigns = ref_map(conv1, conv2)
+        if len(conv1) != len(conv2) or sorted(rperm) != list(range(n)):
+            raise KeyError("different function sets")
+    except KeyError:
+        # the two entries do not name the same functions (the table-entry clause reports the faulty table): the conversion must be refused
+        from iodata.convert import _convert_convention_shell as _ccs
+
+        try:
+            res = _ccs(list(conv1), list(conv2))
+        except Exception:  # noqa: BLE001
+            ctx.outcome("shell-map", "mismatching-entries-rejected")
+            return False
+        ctx.violation("shell-map", "shell:mismatching-entries-mapped", case, f"{tag}: entries naming different function sets were mapped to {res}")
+        return False
+    want = v1[rperm] * rsigns
     try:
         perm, signs = _convert_convention_shell(list(conv1), list(conv2))
         bperm, bsigns = _convert_convention_shell(list(conv1), list(conv2), True)
